@@ -22,6 +22,7 @@ import (
 	"os"
 	"path/filepath"
 	"runtime"
+	"runtime/debug"
 	"sort"
 	"strings"
 	"sync"
@@ -995,6 +996,8 @@ func openFdsUnder(dir string) int {
 }
 
 func runOsfs(d desc) hlib.Case {
+	// an unreachable *os.File is closed by its finalizer: keep the collector off so that a forgotten Close stays visible
+	defer debug.SetGCPercent(debug.SetGCPercent(-1))
 	dir, err := os.MkdirTemp("", "c25-")
 	if err != nil {
 		panic(err)
@@ -1015,6 +1018,9 @@ func runOsfs(d desc) hlib.Case {
 	}
 	_ = os.WriteFile(filepath.Join(dir, "sub", "index.html"), []byte(strings.Repeat("<p>i</p>", 50)), 0o644)
 	_ = os.WriteFile(filepath.Join(dir, "gen", "data"), []byte(strings.Repeat("y", 9000)), 0o644) // no extension: header is sniffed
+	if d.Comp { // a corrupt compressed copy of an extension-less file: newFSFile fails after the Open (the open-error-leak shape on os files)
+		_ = os.WriteFile(filepath.Join(dir, "gen", "data.fasthttp.gz"), []byte("not gzip"), 0o644)
+	}
 	names = append(names, "sub/", "gen/", "sub", "gen/data", "missing")
 	stop := make(chan struct{})
 	fsys := &fasthttp.FS{Root: dir, CacheDuration: 20 * time.Millisecond, CleanStop: stop, SkipCache: d.Noop, Compress: d.Comp,
@@ -1092,6 +1098,11 @@ func runOsfs(d desc) hlib.Case {
 	stopOnce.Do(func() { close(stop) })
 	waitFor(func() bool { return openFdsUnder(dir) == 0 })
 	left := openFdsUnder(dir)
+	if os.Getenv("C25_DEBUG") != "" {
+		gz, _ := filepath.Glob(filepath.Join(dir, "*.fasthttp.gz"))
+		gz2, _ := filepath.Glob(filepath.Join(dir, "*", "*.fasthttp.gz"))
+		fmt.Fprintf(os.Stderr, "osfs comp=%v: compressed files on disk: %d\n", d.Comp, len(gz)+len(gz2))
+	}
 	c := hlib.Case{Kind: "osfs", Size: d.Reqs * d.Workers}
 	if d.Noop {
 		c.Kind = "osfs-skipcache"
